@@ -37,6 +37,11 @@ def run(ctx):
     ctx.guard('W-VER', 'resolution', check_resolution, ctx, w)
     ctx.floor('W-VER', 10)
     ctx.guard('H-CUR', 'cursor', hrules.run_h, ctx, w, [GV])
+    # enumeration answers must not come out of a half-filled memo (shared with C10)
+    from sa import partial
+    ctx.rule('J-PARTIAL', 'the version entries are never served from a container that was filled between yields or one entry per query')
+    ctx.guard('J-PARTIAL', 'partial containers', partial.check_partial, ctx, w, 'J-PARTIAL', [GV])
+    ctx.floor('J-PARTIAL', 1)
 
 
 def check_walks(ctx, w):
